@@ -5,11 +5,11 @@ Import ListNotations.
 Open Scope N_scope.
 
 (* T -> *U: the generator emits "pointer to the conversion of the value" ... *)
-Theorem C11_value_to_pointer_plan : forall e cc out FT ext sm f ctx lv s t st p st',
+Theorem C11_value_to_pointer_plan : forall e cc out exc FT ext sm f ctx lv s t st p st',
   b_ctor st = false ->
   cc_UseUnderlyingTypeMethods (bc_conf ctx) = false -> (forall id, s <> TNamed id) -> f_Pointer e s = false ->
-  build_no_lookup e cc out FT ext sm (S f) ctx lv s (TPtr t) st = GOk (p, st') ->
-  exists al q, p = PRef al q /\ exists st0, build e cc out FT ext sm f ctx lv s t st = GOk (q, st0).
+  build_no_lookup e cc out exc FT ext sm (S f) ctx lv s (TPtr t) st = GOk (p, st') ->
+  exists al q, p = PRef al q /\ exists st0, build e cc out exc FT ext sm f ctx lv s t st = GOk (q, st0).
 Proof. exact gen_value_to_ptr. Qed.
 (* ... which evaluates to a non-nil pointer to that conversion *)
 Theorem C11_value_to_pointer_nonnil : forall e M F f cx q src st v st',
@@ -22,12 +22,12 @@ Theorem C11_pointer_to_value_needs_flag : forall e hm conf s t,
   cc_UseZeroValueOnPointerInconsistency conf = false -> (forall id, t <> TNamed id) -> f_Pointer e t = false ->
   first_rule e hm conf (TPtr s) t = None.
 Proof. exact ptr_to_value_needs_flag. Qed.
-Theorem C11_pointer_to_value_plan : forall e cc out FT ext sm f ctx lv s t st p st',
+Theorem C11_pointer_to_value_plan : forall e cc out exc FT ext sm f ctx lv s t st p st',
   b_ctor st = false ->
   cc_UseZeroValueOnPointerInconsistency (bc_conf ctx) = true -> cc_UseUnderlyingTypeMethods (bc_conf ctx) = false ->
   (forall id, t <> TNamed id) -> f_Pointer e t = false ->
-  build_no_lookup e cc out FT ext sm (S (S f)) ctx lv (TPtr s) t st = GOk (p, st') ->
-  exists q, p = POfAssign t (ASrcPtr q) /\ exists st0 st1, b_tab st0 = b_tab st /\ build e cc out FT ext sm f ctx LV_DEREF s t st0 = GOk (q, st1).
+  build_no_lookup e cc out exc FT ext sm (S (S f)) ctx lv (TPtr s) t st = GOk (p, st') ->
+  exists q, p = POfAssign t (ASrcPtr q) /\ exists st0 st1, b_tab st0 = b_tab st /\ build e cc out exc FT ext sm f ctx LV_DEREF s t st0 = GOk (q, st1).
 Proof. exact gen_ptr_to_value_with_flag. Qed.
 (* ... and then yields the zero value of U for nil and the conversion of the pointee otherwise *)
 Theorem C11_pointer_to_value_nil : forall e M F f cx t q st,
